@@ -17,6 +17,8 @@ func C15(c *Ctx) {
 	r.Assumptions = []string{"C01/C12 cover the general path"}
 	r.Rule("C15-a", "BasicLatinLookup handles ignoreCase inside each of its member loops (chars, ranges, unicodeClasses), as the general path folds the rune before all three tests")
 	r.Rule("C15-b", "parseCharClassMatcher (BasicLatinLookupTable variants): `if cur < 128 { if chr.basicLatinChars[cur] != chr.inverted { read; failAt(true); return slice,true }; failAt(false); return nil,false }` on the unfolded rune, before the general path; other variants never mention basicLatinChars in code")
+	r.Rule("C15-d", "under ignoreCase BasicLatinLookup applies the Basic Latin filter (< 128) to the folded member - the value the general path compares the folded input with -, not to the member as written: a member outside Basic Latin whose lower-case form lies inside it (U+212A KELVIN SIGN, U+0130) must mark its ASCII forms")
+	r.Rule("C15-e", "the end points of a range are not case-mapped one by one (C01-g under this property): the table is computed from the ranges as written with both cases of every rune, the general path from the lower-cased end points, so the two disagree wherever the lower-case image of the range is not the interval between the lower-cased end points ([A-z]i, [Z-a]i)")
 	r.Rule("C15-c", "builder.writeCharClassMatcher emits basicLatinChars iff b.basicLatinLookupTable, computed by BasicLatinLookup(ch.Chars, ch.Ranges, ch.UnicodeClasses, ch.IgnoreCase)")
 
 	g := c.G()
@@ -36,6 +38,10 @@ func C15(c *Ctx) {
 	basicLatinCaseClosure(c, "C15-a")
 	basicLatinNoSkips(c, "C15-a")
 	basicLatinSiblingForms(c, "C15-a")
+	// ---- d: the Basic Latin filter is applied to what the general path compares with
+	r.Check(len(model["chars-fold-before-filter"]) == 0, "C15-d", "G.builder.BasicLatinLookup:chars-fold-before-filter", "", g.Where(blfd.Pos()), "under ignoreCase the member tested against 128 is the folded member",
+		strings.Join(uniq(model["chars-fold-before-filter"]), "; ")+" ([\\u212a]i matches k without -optimize-basic-latin and not with it)")
+	c01gRangeImage(c, "C15-e")
 	// ---- c
 	wc := load.FuncDecl(bp, "builder", "writeCharClassMatcher")
 	okEmit := false
